@@ -9,9 +9,12 @@
     serCache_eq_serNoCache emit_history_free emit_context_only_text
     raw_text_entry_violates_inv flatten_cache_irrelevant render_cache_irrelevant
     cache_flag_honoured filter_chain_order ws_filter_args xml_namespace_const
+    strip_is_norm_of_runs merge_only_unobservable_partial strip_only_whitespace_partial
+    wsNorm_deletes_only_ws noescape_agree_html_vocab strip_namespace_witness
 -/
 import Genshi.Lemmas.Output
 import Genshi.Lemmas.OutputFlatten
+import Genshi.Lemmas.OutputWs
 import Genshi.Model.OutputPipeline
 namespace Genshi.Props.C09
 open Genshi Genshi.Output
@@ -160,5 +163,161 @@ theorem ws_filter_args :
 
 theorem xml_namespace_const :
     xmlNs = Gen.OutputExtra.xmlNamespace ∧ xmlSpaceQ.ns = Gen.OutputExtra.xmlNamespace := by decide
+
+/-! ### whitespace stripping -/
+
+/-- the serializer with a `WhitespaceFilter` whose text normalisation is `norm` (no doctype option) -/
+def renderWith (norm : Bool → Str → Str) (m : Method) (cache dropd : Bool) (s : Stream) : Option Str :=
+  (flatten cache (flatInit m) (wsFilterG norm (wsCfg m) {} (emptyTag none s))).map
+    fun fs => (loop m ⟨dropd⟩ cache {} fs).flatten
+
+/-- `strip_whitespace=True` is: every maximal run of adjacent TEXT events goes through `stdNorm`
+    (`wsNorm` outside preserved space, identity inside) — by construction of the filter. -/
+theorem strip_is_norm_of_runs (m : Method) (cache dropd : Bool) (s : Stream) :
+    render m { strip := true, cache := cache, doctype := none, dropXmlDecl := dropd } s =
+    renderWith stdNorm m cache dropd s := by
+  simp only [render, chunks, filtered, preFlat, wsFilter, renderWith, Option.map_map, ↓reduceIte]
+  congr 1
+
+theorem mem_emptyTag_start (t : QName) (a : AttrList) (s : Stream) :
+    ∀ p : Option (QName × AttrList), XEv.start t a ∈ emptyTag p s → Event.start t a ∈ s ∨ p = some (t, a) := by
+  induction s with
+  | nil => intro p h; simp [emptyTag] at h
+  | cons e es ih =>
+    intro p h
+    cases p with
+    | none =>
+      cases e with
+      | start t' a' =>
+        simp only [emptyTag] at h
+        rcases ih _ h with h1 | h1
+        · exact Or.inl (by simp [h1])
+        · simp only [Option.some.injEq, Prod.mk.injEq] at h1; exact Or.inl (by simp [h1.1, h1.2])
+      | _ =>
+        simp only [emptyTag, ofEvent, List.mem_cons] at h
+        rcases h with h | h
+        · cases h
+        · rcases ih _ h with h1 | h1
+          · exact Or.inl (by simp [h1])
+          · cases h1
+    | some q =>
+      obtain ⟨t0, a0⟩ := q
+      cases e with
+      | end_ t' =>
+        simp only [emptyTag, List.mem_cons] at h
+        rcases h with h | h
+        · cases h
+        · rcases ih _ h with h1 | h1
+          · exact Or.inl (by simp [h1])
+          · cases h1
+      | start t' a' =>
+        simp only [emptyTag, List.mem_cons] at h
+        rcases h with h | h
+        · cases h; exact Or.inr rfl
+        · rcases ih _ h with h1 | h1
+          · exact Or.inl (by simp [h1])
+          · simp only [Option.some.injEq, Prod.mk.injEq] at h1; exact Or.inl (by simp [h1.1, h1.2])
+      | _ =>
+        simp only [emptyTag, ofEvent, List.mem_cons] at h
+        rcases h with h | h | h
+        · cases h; exact Or.inr rfl
+        · cases h
+        · rcases ih _ h with h1 | h1
+          · exact Or.inl (by simp [h1])
+          · cases h1
+
+/-- for html the filter looks script/style up by qualified name and the main loop by flattened
+    name; the stream is inside the HTML vocabulary when both agree on every START -/
+def NoescapeAgreeS (m : Method) (s : Stream) : Prop :=
+  ∀ t a, Event.start t a ∈ s → m = .html →
+    qInTable (noescapeElems .html) t = inTable (noescapeElems .html) t.loc
+
+/-- Apart from normalising white space the filter is unobservable: with the merge-only filter
+    (adjacent text merged, pre-escaped, wrapped in Markup, script/CDATA text marked raw — but no
+    normalisation) the output is the output without any filter.  Unconditional for xml and xhtml;
+    for html on streams whose script/style elements are un-namespaced or XHTML (`NoescapeAgreeS`,
+    see `strip_namespace_witness`).  Partial: stated without a doctype option. -/
+theorem merge_only_unobservable_partial (m : Method) (cache dropd : Bool) (s : Stream)
+    (hag : NoescapeAgreeS m s) :
+    renderWith idNorm m cache dropd s =
+    render m { strip := false, cache := cache, doctype := none, dropXmlDecl := dropd } s := by
+  have hc : ∀ c : Bool, renderWith idNorm m c dropd s = renderWith idNorm m false dropd s := by
+    intro c; cases c
+    · rfl
+    · simp only [renderWith, flatten_cache_irrelevant, serCache_eq_serNoCache]
+  rw [hc cache]
+  have hr := render_cache_irrelevant m false none dropd s
+  have hr2 : render m { strip := false, cache := cache, doctype := none, dropXmlDecl := dropd } s =
+      render m { strip := false, cache := false, doctype := none, dropXmlDecl := dropd } s := by
+    cases cache
+    · rfl
+    · exact hr
+  rw [hr2]
+  have hag' : ∀ ev ∈ emptyTag none s, NoescapeAgree m ev := by
+    intro ev hev
+    cases ev with
+    | start t a =>
+      intro hm
+      rcases mem_emptyTag_start t a s none hev with h | h
+      · exact hag t a h hm
+      · cases h
+    | _ => trivial
+  have := wsMerge_tailOut m ⟨dropd⟩ (emptyTag none s) {} (flatInit m) {}
+    ⟨rfl, fun _ => rfl, fun _ => rfl⟩ hag'
+  simp only [tailOut, bufOut, List.flatMap_nil, List.nil_append, Option.map_map] at this
+  simp only [renderWith, render, chunks, filtered, preFlat, withDoctype, Option.map_map, Bool.false_eq_true,
+    ↓reduceIte]
+  rw [this]
+  congr 1
+
+/-- Output produced with whitespace stripping differs from output without it only in that every
+    text run outside preserved space is replaced by its white-space normal form, which deletes
+    nothing but blanks, tabs and line feeds.
+    Full statement (not proved): the same with a doctype option, for html without the
+    `NoescapeAgreeS` hypothesis on namespace-free / XHTML streams only, and the corollary
+    `normWs (render strip) = normWs (render nostrip)` for the global normal form. -/
+theorem strip_only_whitespace_partial (m : Method) (cache dropd : Bool) (s : Stream)
+    (hag : NoescapeAgreeS m s) :
+    render m { strip := true, cache := cache, doctype := none, dropXmlDecl := dropd } s =
+      renderWith stdNorm m cache dropd s ∧
+    render m { strip := false, cache := cache, doctype := none, dropXmlDecl := dropd } s =
+      renderWith idNorm m cache dropd s ∧
+    (∀ p x, stdNorm p x = (if p then idNorm p x else wsNorm x)) ∧
+    (∀ x, (wsNorm x).Sublist x ∧ (wsNorm x).filter (fun c => !wsChar c) = x.filter (fun c => !wsChar c)) :=
+  ⟨strip_is_norm_of_runs m cache dropd s, (merge_only_unobservable_partial m cache dropd s hag).symm,
+   fun _ _ => rfl, Output.wsNorm_deletes_only_ws⟩
+
+theorem wsNorm_deletes_only_ws (x : Str) :
+    (wsNorm x).Sublist x ∧ (wsNorm x).filter (fun c => !wsChar c) = x.filter (fun c => !wsChar c) :=
+  Output.wsNorm_deletes_only_ws x
+
+example : wsNorm ['a', ' ', ' ', '\n', '\n', '\n', ' ', 'b', ' '] = ['a', '\n', ' ', 'b', ' '] := by decide
+
+/-- the hypothesis holds on the HTML vocabulary: un-namespaced or XHTML elements whose local
+    names contain no brace -/
+theorem noescape_agree_html_vocab (t : QName) (h : (t.ns = [] ∨ t.ns = xhtmlNs) ∧ '{' ∉ t.loc) :
+    qInTable (noescapeElems .html) t = inTable (noescapeElems .html) t.loc := by
+  obtain ⟨ns, loc⟩ := t
+  simp only at h
+  have hb : ∀ pre : Str, loc ≠ '{' :: pre := by
+    intro pre hp; exact h.2 (by simp [hp])
+  rcases h.1 with h1 | h1 <;> subst h1
+  · rfl
+  · simp only [qInTable, inTable, noescapeElems, Gen.Output.htmlNoescapeElems, QName.text, xhtmlNs, List.any_cons,
+      List.any_nil, List.isEmpty_nil, List.isEmpty_cons, ↓reduceIte, Bool.false_eq_true, Bool.or_false]
+    by_cases hs : loc = ['s', 'c', 'r', 'i', 'p', 't']
+    · subst hs; decide
+    by_cases hy : loc = ['s', 't', 'y', 'l', 'e']
+    · subst hy; decide
+    have e1 : ∀ x : Str, x ≠ loc → (x == loc) = false := fun x hx => by simpa using hx
+    simp [e1 _ (Ne.symm hs), e1 _ (Ne.symm hy), Ne.symm hs, Ne.symm hy, hb]
+    exact ⟨fun h => hb _ h.symm, fun h => hb _ h.symm⟩
+
+/-- outside it the full statement fails: a `script` element in a foreign default namespace is
+    raw for the main loop (flattened name `script`) but not for the filter -/
+theorem strip_namespace_witness :
+    let s : Stream := [.start ⟨['u'], ['s','c','r','i','p','t']⟩ [], .text ['<'] false,
+                       .end_ ⟨['u'], ['s','c','r','i','p','t']⟩]
+    renderWith idNorm .html false true s ≠ render .html { strip := false, cache := false } s := by decide
 
 end Genshi.Props.C09
